@@ -28,7 +28,7 @@ import (
 	"strings"
 	"sync"
 
-	"github.com/davecgh/go-spew/spew"
+	"sort"
 )
 
 type entry struct {
@@ -187,14 +187,100 @@ func ModelPlaintext(i int) []byte {
 	return nil
 }
 
-var dumper = spew.ConfigState{Indent: " ", DisablePointerAddresses: true, DisableCapacities: true, SortKeys: true, DisableMethods: true}
+// dump renders everything reachable from v, unexported fields included, without addresses or
+// capacities (reflection may read unexported fields, it only may not hand them out).
+func dump(v reflect.Value, seen map[uintptr]bool, sb *strings.Builder) {
+	if !v.IsValid() {
+		sb.WriteString("<invalid>")
+		return
+	}
+	switch v.Kind() {
+	case reflect.Bool:
+		fmt.Fprintf(sb, "%v", v.Bool())
+	case reflect.Int, reflect.Int8, reflect.Int16, reflect.Int32, reflect.Int64:
+		fmt.Fprintf(sb, "%d", v.Int())
+	case reflect.Uint, reflect.Uint8, reflect.Uint16, reflect.Uint32, reflect.Uint64, reflect.Uintptr:
+		fmt.Fprintf(sb, "%d", v.Uint())
+	case reflect.String:
+		fmt.Fprintf(sb, "%q", v.String())
+	case reflect.Ptr:
+		if v.IsNil() {
+			sb.WriteString("nil")
+			return
+		}
+		if seen[v.Pointer()] {
+			sb.WriteString("<cycle>")
+			return
+		}
+		seen[v.Pointer()] = true
+		sb.WriteString("&")
+		dump(v.Elem(), seen, sb)
+		delete(seen, v.Pointer())
+	case reflect.Interface:
+		if v.IsNil() {
+			sb.WriteString("nil")
+			return
+		}
+		sb.WriteString(v.Elem().Type().String() + ":")
+		dump(v.Elem(), seen, sb)
+	case reflect.Struct:
+		sb.WriteString(v.Type().String() + "{")
+		for i := 0; i < v.NumField(); i++ {
+			sb.WriteString(v.Type().Field(i).Name + ":")
+			dump(v.Field(i), seen, sb)
+			sb.WriteString(" ")
+		}
+		sb.WriteString("}")
+	case reflect.Slice, reflect.Array:
+		if v.Kind() == reflect.Slice && v.IsNil() {
+			sb.WriteString("nil[]")
+			return
+		}
+		sb.WriteString("[")
+		for i := 0; i < v.Len(); i++ {
+			dump(v.Index(i), seen, sb)
+			sb.WriteString(" ")
+		}
+		sb.WriteString("]")
+	case reflect.Map:
+		if v.IsNil() {
+			sb.WriteString("nilmap")
+			return
+		}
+		var items []string
+		it := v.MapRange()
+		for it.Next() {
+			var e strings.Builder
+			dump(it.Key(), seen, &e)
+			e.WriteString("=>")
+			dump(it.Value(), seen, &e)
+			items = append(items, e.String())
+		}
+		sort.Strings(items)
+		sb.WriteString("map{" + strings.Join(items, ", ") + "}")
+	case reflect.Func:
+		if v.IsNil() {
+			sb.WriteString("nilfunc")
+		} else {
+			sb.WriteString("func")
+		}
+	default:
+		sb.WriteString("<" + v.Kind().String() + ">")
+	}
+}
+
+func sdump(x any) string {
+	var sb strings.Builder
+	dump(reflect.ValueOf(x), map[uintptr]bool{}, &sb)
+	return sb.String()
+}
 
 // FrameBegin starts a frame condition on everything reachable from root: under the executor every
 // later write to an object that is reachable from root now is recorded; natively a deep dump
 // (unexported fields included) is taken.
 func FrameBegin(root any) int {
 	s := cur()
-	s.frameDumps = append(s.frameDumps, dumper.Sdump(root))
+	s.frameDumps = append(s.frameDumps, sdump(root))
 	s.frameRoots = append(s.frameRoots, root)
 	return len(s.frameDumps) - 1
 }
@@ -202,7 +288,7 @@ func FrameBegin(root any) int {
 // FrameUnchanged reports whether nothing reachable from the root has been written since FrameBegin.
 func FrameUnchanged(tok int) bool {
 	s := cur()
-	return dumper.Sdump(s.frameRoots[tok]) == s.frameDumps[tok]
+	return sdump(s.frameRoots[tok]) == s.frameDumps[tok]
 }
 
 // Native reports whether the harness runs natively (replay) rather than under the executor.
